@@ -21,7 +21,13 @@ theorem cellOf_eq_some {oe : Option Entry} {c : Cell} :
   cases oe with
   | none => simp [cellOf]
   | some e =>
-    cases hs : e.soft <;> simp [cellOf, hs, eq_comm]
+    cases hs : e.soft with
+    | true => simp [cellOf, hs]
+    | false =>
+      simp only [cellOf, hs, Bool.false_eq_true, if_false, Option.some.injEq]
+      constructor
+      · intro h; exact ⟨e, rfl, rfl, h.symm⟩
+      · rintro ⟨e', h1, _, h2⟩; cases h1; exact h2.symm
 
 theorem cellOf_eq_none {oe : Option Entry} : cellOf oe = none ↔ oe = none ∨ ∃ e, oe = some e ∧ e.soft = true := by
   cases oe with
@@ -35,12 +41,11 @@ theorem abs_cells_eq_some (s : State) (k : Nat) (c : Cell) :
 
 /-- `S.read` on the abstraction of `s` is what a read returns in `s` (`visible` of Lemmas/Frame.lean) -/
 theorem read_abs (s : State) (k : Nat) : (abs s).read k = if s.shutting then none else visible s k := by
-  simp only [S.read, abs, visible]
-  cases s.shutting with
-  | true => rfl
+  cases hsh : s.shutting with
+  | true => simp [S.read, abs, hsh]
   | false =>
-    generalize s.store.get? k = oe
-    cases oe with
+    simp only [S.read, abs, visible, hsh, Bool.false_eq_true, if_false]
+    cases s.store.get? k with
     | none => rfl
     | some e =>
       cases hs : e.soft <;> cases hx : e.expiry <;> simp [cellOf, Entry.alive, Cell.expired, hs, hx]
